@@ -374,6 +374,62 @@ def default_methods_worker(N):
                     errs.append(("default-unit-prior:input-modified", f"n={n}"))
                 if m.likelihood_evaluations != 0:
                     errs.append(("default-unit-prior:evaluation-counter-changed-by-prior", f"n={n}"))
+    # non-default dtypes configured through nessai.config (parameters narrower than log-likelihoods):
+    # batch values must still be bit-identical to pointwise ones in every branch
+    from nessai import config as _cfg
+
+    saved_cfg = (_cfg.livepoints.default_float_dtype, _cfg.livepoints.logl_dtype)
+    for fdt, ldt in (("f4", "f8"), ("f8", "f8"), ("f4", "f4")):
+        _cfg.livepoints.default_float_dtype, _cfg.livepoints.logl_dtype = fdt, ldt
+        _cfg.livepoints.reset_properties()
+        try:
+            class Wide(Model):
+                """likelihood and prior computed in float64 with values no float32 can hold"""
+
+                def __init__(self, vec):
+                    self.names = ["x0", "x1"]
+                    self.bounds = {"x0": [-4.0, 4.0], "x1": [-2.0, 6.0]}
+                    self._vec = vec
+
+                def log_prior(self, x):
+                    v = np.asarray(x["x0"], dtype="f8") * 0.1 + 0.123456789012345
+                    v = np.where(self.in_bounds(x), v, -np.inf)
+                    return v if self._vec or np.ndim(x) else float(v)
+
+                def log_likelihood(self, x):
+                    v = np.asarray(x["x0"], dtype="f8") * np.asarray(x["x1"], dtype="f8") * (-0.3) + 1.000000123456789
+                    return v if self._vec or np.ndim(x) else float(v)
+
+            for n in (0, 1, 5):
+                a = np.array([[(-3.7 + 0.61 * i) % 3.9, (-1.3 + 1.07 * i) % 5.9] for i in range(n)], dtype=float).reshape(n, 2)
+                x = numpy_array_to_live_points(a, ["x0", "x1"])
+                for vec in (True, False):
+                    for pool_k in (None, 2):
+                        for chunk in (None, 2):
+                            m = Wide(vec)
+                            m.likelihood_chunksize = chunk
+                            m.vectorised_likelihood = m.vectorised_prior = vec
+                            if pool_k:
+                                initialise_pool_variables(m)
+                                m.configure_pool(pool=FakePool(pool_k, perm_id=0, sized=True))
+                            for fn in ("log_likelihood", "log_prior"):
+                                single = np.array([float(np.asarray(getattr(m, fn)(x[i : i + 1])).reshape(-1)[0]) for i in range(n)], dtype="f8")
+                                try:
+                                    with np.errstate(all="ignore"):
+                                        out = np.asarray(getattr(m, "batch_evaluate_" + fn)(x))
+                                except Exception as e:
+                                    errs.append((f"dtype-config:raises-{type(e).__name__}", f"{e} config ({fdt},{ldt}) n={n} vec={vec} pool={pool_k} chunk={chunk} {fn}"))
+                                    continue
+                                ran += 1
+                                want = single.astype(ldt) if fn == "log_likelihood" else single.astype(fdt) if False else single
+                                # the log-likelihood is returned in the configured logL dtype, nothing narrower on the way
+                                if fn == "log_likelihood" and (out.dtype != np.dtype(ldt) or out.tobytes() != want.tobytes()):
+                                    errs.append(("dtype-config:batch-log-likelihood-differs-from-pointwise", f"config (parameters {fdt}, logL {ldt}) n={n} vec={vec} pool={pool_k} chunk={chunk}: {out} vs {want}"))
+                                if fn == "log_prior" and np.asarray(out, dtype="f8").astype(fdt).tobytes() != single.astype(fdt).tobytes():
+                                    errs.append(("dtype-config:batch-log-prior-differs-from-pointwise", f"config (parameters {fdt}, logL {ldt}) n={n} vec={vec} pool={pool_k} chunk={chunk}: {out} vs {single}"))
+        finally:
+            _cfg.livepoints.default_float_dtype, _cfg.livepoints.logl_dtype = saved_cfg
+            _cfg.livepoints.reset_properties()
     # Model.in_bounds is the gate every proposal relies on: exact, closed-interval comparison with the
     # declared bounds, field by NAME (whatever the order of the fields in the array), no tolerance
     class Box(Model):
